@@ -254,10 +254,18 @@ def main(tier):
         occ[position] = r["occurrences"]
         if r["status"] == "inconclusive":
             rep.inconc("render %s: %s" % (position, r.get("note", "solver unknown")))
+        expanded = []
         for kind, lit, desc in r["findings"]:
+            if kind == "search":
+                group = "search:%s:%s" % (position, desc[:40])
+                expanded += [(kind, c, desc, group) for c in lf.STRINGS + lf.ADVERSARIAL if lf.quote(c) is not None]
+            else:
+                expanded.append((kind, lit, desc, None))
+        for kind, lit, desc, group in expanded:
             q = lf.quote(lit) if isinstance(lit, str) else None
             if q is None:
                 continue
+            n_before = len(witnesses)
             if position in ("group_definition", "second_group_definition"):
                 text = 'def exp { splitters: uid return %s weighted 1 }' % q
                 witnesses.append({"kind": "eval_value", "text": text, "fields": {"uid": enc("u")},
@@ -269,6 +277,9 @@ def main(tier):
                 pos = position if position in ("left_term", "right_term") else "right_term"
                 witnesses.append({"kind": "routing", "text": lf.text_for(pos, q), "fields": {"uid": enc("u"), "fld": enc(lit)},
                                   "expected": {"label": 0}, "why": "render(%s): %s (literal %s)" % (position, desc, q)})
+            if group:
+                for w_ in witnesses[n_before:]:
+                    w_["search_group"] = group
         for sort in ("int", "float"):
             if position in ("salt",):
                 continue
@@ -313,22 +324,34 @@ def main(tier):
         elif r["status"] == "inconclusive":
             rep.inconc("run: %s" % r.get("note"))
     seen = set()
+    groups = {}
     for w in witnesses:
         if len(rep.violations) >= 6:
             break
-        key = w["why"][:48]
-        if key in seen:
+        g = w.get("search_group")
+        key = w["why"][:48] if not g else None
+        if g:
+            if groups.get(g) == "found":
+                continue
+            groups.setdefault(g, "open")
+        elif key in seen:
             continue
         seen.add(key)
         payload = dict(w)
         payload["property"] = PROP
+        payload.pop("search_group", None)
         o = common.run_replay_subprocess(payload)
         payload["replay_result"] = o
         summary = "%s | %s" % (w["why"], o.get("observed", ""))
         if o.get("reproduced"):
             rep.violation(payload, summary)
-        else:
+            if g:
+                groups[g] = "found"
+        elif not g:
             rep.inconc("witness did not reproduce: " + summary)
+    for g, st in groups.items():
+        if st != "found":
+            rep.inconc("%s: none of the corpus literals shows a deviation on the real code" % g)
     coverage = {
         "programs": len(texts),
         "disagreements_checked": total.unsat + total.sat,
